@@ -28,7 +28,7 @@ struct AppWorld {
 	std::map<std::string,int> entered;       // request tag -> main() entries
 	std::map<std::string,int> on_error;      // request tag -> content-filter on_error calls
 	std::map<std::string,int> completed;     // request tag -> handler ran to its end
-	int untagged_entries = 0; int filters_installed = 0;
+	int untagged_entries = 0; int filters_installed = 0; std::string save_dir; int saved = 0;   // save_dir: where the echo application keeps odd-sized uploads with file::save_to()
 	std::string exception;                   // an exception that left a handler (must be handled by cppcms)
 };
 AppWorld *AW = nullptr;
@@ -53,7 +53,15 @@ public:
 		sort_pairs(g); sort_pairs(p); sort_pairs(c);
 		std::pair<void*,size_t> b = rq.raw_post_data(); std::string body((char*)b.first,b.second);
 		std::vector<std::string> files;
-		for(auto &f:rq.files()){ std::ostringstream ss; ss << f->data().rdbuf(); std::string d = ss.str(); files.push_back(esc(f->name()) + "|" + (f->has_mime() ? esc(f->mime()) : std::string("-")) + "|" + esc(f->filename()) + "|" + blob(d)); }
+		for(auto &f:rq.files()){ std::ostringstream ss; std::string d;
+			if(f->size() % 2 == 0 || AW->save_dir.empty()){ ss << f->data().rdbuf(); d = ss.str(); }
+			else {   // odd sizes: the application reads the upload with ordinary istream calls until they fail at its end, then keeps it with save_to(); what was saved is what gets reported
+				std::istream &in = f->data(); char b[333]; std::string seen; for(;;){ in.read(b,sizeof(b)); std::streamsize n = in.gcount(); if(n > 0) seen.append(b,(size_t)n); if(!in) break; }
+				std::string path; { simk::TsanIgnore ign; path = AW->save_dir + "/s" + std::to_string(AW->saved++); }
+				bool threw = false; try { f->save_to(path); } catch(std::exception const &){ threw = true; }
+				std::string back; { std::ifstream sf(path.c_str(),std::ios::binary); std::ostringstream o2; o2 << sf.rdbuf(); back = o2.str(); } ::unlink(path.c_str());
+				d = threw ? std::string("save_to threw") : back; if(!threw && seen != back) d = "saved file differs from what the application had read: " + std::to_string(back.size()) + " bytes saved, " + std::to_string(seen.size()) + " read"; }
+			files.push_back(esc(f->name()) + "|" + (f->has_mime() ? esc(f->mime()) : std::string("-")) + "|" + esc(f->filename()) + "|" + blob(d)); }
 		std::string t = echo_text(rq.getenv(),g,p,c,body,files);
 		response().set_plain_text_header();
 		response().out() << banner() << t;
@@ -77,7 +85,8 @@ public:
 			case 'a': if(is_asynchronous()) r.full_asynchronous_buffering(n != 0); break;
 			case 'r': if(pos == 0 && !raw_hdr && key.empty()){ raw_hdr = true; r.io_mode(is_asynchronous() ? cppcms::http::response::asynchronous_raw : cppcms::http::response::raw);
 					// the application writes its own (CGI style) header block, in pieces of n bytes
-					std::string hb = "Content-Type: text/plain\r\nX-Raw: yes\r\nStatus: 200 OK\r\n\r\n"; size_t step = n > 0 ? (size_t)n : hb.size();
+					// the two headers the protocol back-ends interpret are spelled in different letter cases (header names are case-insensitive), half of the time with a status other than 200
+					static const char *st[] = {"Status: 200 OK","status: 203 Alt","STATUS: 200 OK","sTaTuS: 203 Alt"}; std::string hb = std::string("Content-Type: text/plain\r\nX-Raw: yes\r\n") + st[salt & 3] + "\r\n\r\n"; size_t step = n > 0 ? (size_t)n : hb.size();
 					for(size_t o=0;o<hb.size();o+=step){ r.out().write(hb.data()+o,std::min(step,hb.size()-o)); if(n % 2) r.out() << std::flush; } } break;
 			case 'l': { std::ostringstream ss; ss << n; r.content_length(n); } break;
 			case 't': if(key.empty()) r.content_type(n == 0 ? "text/plain" : n == 1 ? "application/octet-stream" : "text/html; charset=utf-8"); break;
@@ -315,7 +324,8 @@ struct E1 : Engine {
 			q["body_kind"] = "multipart"; q["boundary"] = bnd; q["content_type"] = "multipart/form-data; boundary=" + bnd;
 			J parts = J::arr(); int np = r.below(prop == "C12" ? 9 : 4); size_t budget = std::min<size_t>(thorough ? 300000 : 60000,gen_budget());
 			for(int i=0;i<np;i++){ J pt = J::obj(); pt["name"] = rnd_token(r,1,10) + std::to_string(i); pt["quoted"] = (int)(r.below(4) != 0); bool file = r.below(2);
-				if(file){ pt["filename"] = r.below(5) ? rnd_token(r,1,12) + ".bin" : std::string(""); pt["has_filename"] = 1; static const char *cts[] = {"application/octet-stream","text/plain","image/png","text/plain; charset=utf-8"}; pt["ctype"] = cts[r.below(4)]; }
+				if(file){ pt["filename"] = r.below(5) ? rnd_token(r,1,12) + ".bin" : std::string("");
+					if(r.below(5) == 0){ static const char *odd[] = {"a\\b.bin","dir\\sub\\","q\"uote\".bin","semi;colon=x.bin","sp ace (1).bin","\\","tail\\\\","\"","C:\\upload\\f.txt"}; pt["filename"] = odd[r.below(9)]; }   /* values that need quoted-pairs: backslashes (also last), double quotes, separators */ pt["has_filename"] = 1; static const char *cts[] = {"application/octet-stream","text/plain","image/png","text/plain; charset=utf-8"}; pt["ctype"] = cts[r.below(4)]; }
 				unsigned x = r.below(10); size_t len = x < 5 ? r.below(200) : x < 8 ? r.below(5000) : r.below(budget); if(len > budget) len = budget; budget -= len; if(!file && len > 3000) len = r.below(3000);
 				if(!file && gen_limit() && gen_limit() <= 65536 && r.below(3) == 0){ len = gen_limit() - 1 + r.below(3); }   // a field exactly at / one off its size limit
 				pt["len"] = (long long)len; pt["seed"] = (long long)r.below(1000000); pt["fill"] = (int)(r.below(3) == 0 ? 2 : r.below(2)); pt["lookalike"] = (int)r.below(4);
@@ -573,7 +583,7 @@ struct E1 : Engine {
 			v["localization"]["locales"][0] = "C"; v["localization"]["backend"] = "std"; v["logging"]["stderr"] = false; v["logging"]["level"] = "error";
 			v["security"]["content_length_limit"] = 2048; v["security"]["multipart_form_data_limit"] = 2048; v["security"]["display_error_message"] = false;
 			{ char pb[16]; snprintf(pb,sizeof(pb),"%07d",(int)getpid()); upload_dir = runner::g_scratch + "/up" + pb; }   /* fixed length, see runner.h */ mkdir(upload_dir.c_str(),0700);
-			v["security"]["uploads_path"] = upload_dir;
+			v["security"]["uploads_path"] = upload_dir; aw.save_dir = upload_dir + ".saved"; mkdir(aw.save_dir.c_str(),0700);
 			v["security"]["content_length_limit"] = (int)std::max<int64_t>(1,std::min<int64_t>(cfg.geti("content_limit_kb",2048),4096)); v["security"]["multipart_form_data_limit"] = (int)std::max<int64_t>(1,std::min<int64_t>(cfg.geti("multipart_limit_kb",2048),4096)); v["security"]["file_in_memory_limit"] = (int)std::max<int64_t>(0,std::min<int64_t>(cfg.geti("file_in_memory_limit",128*1024),1<<22));
 			std::unique_ptr<cppcms::service> srv;
 			try {
@@ -658,7 +668,8 @@ struct E1 : Engine {
 					continue; }
 				if(st.stdio_fail && !e.req.boundary.empty() && !raw_filtered && (e.resp.status == 413 || e.resp.status == 500 || e.resp.status == 503)){   // the disk failed under an upload: refusing the request is right, delivering it in part is not
 					if(aw.entered.count(e.tag) && aw.entered[e.tag]){ res.fail("refused-upload-reached-application",who + ": answered " + std::to_string(e.resp.status) + " after a disk error but the application ran"); break; } n_disk_refused++; continue; }
-				if(e.resp.status != 200){ res.fail("unexpected-status",who + ": status " + std::to_string(e.resp.status) + " for a well-formed request; body " + esc(e.resp.body.substr(0,200))); break; }
+				int want_status = e.is_writer && e.script.size() > 1 && e.script[0] == 'r' && (e.salt & 1) ? 203 : 200;   // raw mode: the application's own Status header decides
+				if(e.resp.status != want_status){ res.fail("unexpected-status",who + ": status " + std::to_string(e.resp.status) + (want_status == 200 ? " for a well-formed request" : " although the application's header block said 203") + "; body " + esc(e.resp.body.substr(0,200))); break; }
 				int ent = aw.entered.count(e.tag) ? aw.entered[e.tag] : 0;
 				if(ent != 1){ res.fail(ent == 0 ? "handler-not-entered" : "handler-entered-twice",who + ": main() entered " + std::to_string(ent) + " times"); break; }
 				std::string body = e.resp.body;
@@ -702,6 +713,7 @@ struct E1 : Engine {
 						if(t[0] == 'c'){ bool found = false; for(auto &h:e.resp.headers) if(lower(h.first) == "set-cookie" && h.second.find("ck" + std::to_string(n) + "=cv" + std::to_string(n*3)) != std::string::npos) found = true; if(!found){ res.fail("response-header-missing",who + ": cookie ck" + std::to_string(n) + " set by the application is missing"); break; } } }
 				}
 			} }
+		if(!aw.save_dir.empty()){ if(DIR *d = opendir(aw.save_dir.c_str())){ while(struct dirent *de = readdir(d)){ if(de->d_name[0] != '.'){ std::string f = aw.save_dir + "/" + de->d_name; unlink(f.c_str()); } } closedir(d); } rmdir(aw.save_dir.c_str()); res.counters["uploads_saved_with_save_to"] = aw.saved; }
 		if(!upload_dir.empty()){ std::string left; if(DIR *d = opendir(upload_dir.c_str())){ while(struct dirent *de = readdir(d)){ if(de->d_name[0] != '.'){ left += std::string(" ") + de->d_name; std::string f = upload_dir + "/" + de->d_name; unlink(f.c_str()); } } closedir(d); } rmdir(upload_dir.c_str());
 			if(res.ok && !left.empty()) res.fail("upload-temp-file-left","temporary upload files survived their requests:" + left); }
 		if(res.ok && conn_leak) res.fail("connection-not-released",std::to_string(conn_leak) + " accepted connections were still open after every peer had gone and the longest time-out had passed");
